@@ -30,7 +30,7 @@ ASSUMPTIONS = [
     "depth_m = depth_ft x 0.3048 is compared within 4 ulp",
 ]
 REQUIRED = ["json_exports", "json_integer_header_values", "json_text_curves", "json_nan_header_values", "json_object_curves_with_nan", "json_objects_with_infinities_and_float32", "json_infinite_values", "csv_exports", "csv_records_checked",
-            "excel_exports", "excel_text_curves", "df_roundtrips", "df_of_empty_object", "df_roundtrips_with_stale_suffixes", "exports_repeated_after_in_place_edits", "depth_unit_cases", "depth_conflict_cases", "depth_unrecognised_cases", "depth_cases_mnemonic_case_lower", "depth_cases_mnemonic_case_preserve"]
+            "excel_exports", "excel_text_curves", "df_roundtrips", "df_objects_with_numeric_looking_text_curve", "df_of_empty_object", "df_roundtrips_with_stale_suffixes", "exports_repeated_after_in_place_edits", "depth_unit_cases", "depth_conflict_cases", "depth_unrecognised_cases", "depth_cases_mnemonic_case_lower", "depth_cases_mnemonic_case_preserve"]
 SOFT_DEADLINE = {"quick": 100, "thorough": 1500}
 LEVEL_TEXT = "Exploration with independent readers of every export format as oracles over generated and corpus objects."
 LEVEL_NOTE = "Trusts json/csv/openpyxl/pandas as readers; export options outside the listed sets are not covered."
@@ -115,6 +115,11 @@ def make(ctx, case):
         if len(las.curves) >= 1 and np.asarray(las.curves[0].data).dtype.kind == "f":
             las.append_curve("SNGL", np.asarray(las.curves[0].data, dtype=np.float32) / 3, descr="float32 curve")
         ctx.count("json_objects_with_infinities_and_float32")
+    if case.get("kind") == "df" and case.get("textcurve") and len(las.curves) and not spec.get("via_text"):
+        # a text curve whose samples all look like numbers (codes with leading zeros): text stays text in the DataFrame
+        n = len(las.curves[0].data)
+        las.append_curve("CODE", np.array(["%03d" % (i + 1) for i in range(n)]), descr="text curve of numeric-looking codes")
+        ctx.count("df_objects_with_numeric_looking_text_curve")
     if case.get("textcurve") and rng.random() < 0.6 and len(las.curves) and not spec.get("via_text"):
         # an object-dtype curve mixing text and NaN (what a DataFrame with a missing text value produces)
         n = len(las.curves[0].data)
@@ -495,6 +500,8 @@ def _col_same(a, b):
                 return False
         elif fy:
             return False          # the curve holds a float here: "equal values" means a number, not its text ('2.5', 'nan')
+        elif fx and isinstance(y, str):
+            return False          # the curve holds text here ('001'): its number (1.0) is not an equal value
         elif fx:
             try:
                 if float(x) != float(y) and not (math.isnan(float(x)) and math.isnan(float(y))):
